@@ -37,7 +37,7 @@ Catalog == <<
       Logic(Plain(<<T("i")>>, << << <<"i">>, <<"i","v1">> >> >>, <<>>), "ignore_changes"),
       Logic(Plain(<<T("p"), ST>>, << << <<"p","1">> >> >>, <<
           Plain(<<T("q"), ST>>, << << <<"q","1">> >>, << <<"q","2">> >> >>, <<>>) >>), "permanent"),
-      Logic(Plain(<<T("s"), ST>>, << << <<"s","1">>, <<"s","1","v">> >> >>, <<>>), "permanent") >>],
+      Logic(Plain(<<T("s"), ST>>, << << <<"s","1">> >>, << <<"s","2">> >> >>, <<>>), "permanent") >>],   \* permanent rows are key-determined (as `interface *`)
   [name |-> "logics-nested", rules |-> <<
       Plain(<<T("a"), ST>>, << << <<"a","1">> >> >>, <<>>),
       Plain(<<T("blk"), ST>>, << << <<"blk","1">> >> >>, <<
@@ -55,7 +55,7 @@ Catalog == <<
               Plain(<<T("bw"), ST>>, << << <<"bw","1">> >>, << <<"bw","2">> >> >>, <<>>) >>)) >>) >>],
   [name |-> "rewrite", rules |-> <<
       Plain(<<T("a"), ST>>, << << <<"a","1">> >> >>, <<>>),
-      Plain(<<T("xpl"), ST>>, << << <<"xpl","1">> >> >>, <<
+      Plain(<<T("rp"), ST>>, << << <<"rp","1">> >> >>, <<
           Glob(Rew(Plain(<<TT>>, << << <<"s1">> >>, << <<"s2">> >>, << <<"s3","t">> >> >>, <<>>))) >>) >>],
   [name |-> "catch-all", rules |-> <<
       Plain(<<T("a"), ST>>, << << <<"a","1">> >> >>, <<>>),
@@ -76,8 +76,11 @@ Catalog == <<
       Plain(<<T("ps"), ST>>, << << <<"ps","1">> >> >>, <<
           Ord(Plain(<<T("term"), ST>>, << << <<"term","a">> >>, << <<"term","b">> >> >>, <<
               Glob(Rew(Plain(<<TT>>, << << <<"s1">> >>, << <<"s2","t">> >> >>, <<>>))) >>)) >>) >>],
-  [name |-> "rewrite-values", rules |-> <<
-      Rew(Plain(<<T("r"), ST>>, << << <<"r","1">>, <<"r","1","v1">> >>, << <<"r","2">> >> >>, <<>>)),
+  [name |-> "rewrite-values", rules |-> <<         \* %rewrite lives inside a block (the block is what gets re-sent)
+      Plain(<<T("rv"), ST>>, << << <<"rv","1">> >> >>, <<
+          \* a re-sent block is governed by ONE %rewrite rule: rows of different rules are emitted in rule-text order, which an
+          \* order-sensitive block cannot absorb (observation recorded in DESIGN.md)
+          Rew(Plain(<<T("r"), ST>>, << << <<"r","1">>, <<"r","1","v1">> >>, << <<"r","2">> >>, << <<"r","3">> >> >>, <<>>)) >>),
       Plain(<<T("a"), ST>>, << << <<"a","1">> >> >>, <<>>) >>]
 >>
 
@@ -90,7 +93,7 @@ RECURSIVE Level(_, _)
 GroupOpts(rule, group, loc, glo) ==
   {<<>>} \cup { <<[row |-> group[v], kids |-> kd]>> :
                 v \in DOMAIN group,
-                kd \in (IF rule.glob THEN {<<>>} ELSE      \* instances of %global rules are leaves here
+                kd \in (IF rule.glob \/ Len(group) > 1 THEN {<<>>} ELSE   \* value-carrying rows are leaves (block headers are key-determined);      \* instances of %global rules are leaves here
                         IF rule.kids = <<>> /\ InheritDown(loc, glo) = <<>> THEN {<<>>} ELSE Level(rule.kids, InheritDown(loc, glo))) }
 RECURSIVE GroupsOpts(_, _, _, _)
 GroupsOpts(rule, groups, loc, glo) ==
